@@ -50,6 +50,12 @@ func TestVerifFilter(t *testing.T) {
 		if prop == "C11" && i >= n-2 {
 			stall = time.Duration(res.n(8, 35)) * time.Second
 			stallFirst = i == n-2 // the last but one case: the stall hits the FIRST write, with more messages to come
+			for len(frames) < 3 { // a stalling case needs writes to stall: a stream with several valid frames
+				bs, frames = vStream(r, maxFrame)
+			}
+			// ... and one that ends in a valid frame, so that the stalled write can be the very last thing
+			last := vRandFrame(r, 1+r.Intn(40))
+			bs, frames = append(bs, last...), append(frames, last)
 		}
 		stray := i%5 == 4 && stall == 0
 		if stray {
